@@ -2,7 +2,9 @@ package props
 
 import (
 	"crypto/sha256"
+	"fmt"
 	"math/big"
+	"strings"
 	"sync"
 	"time"
 
@@ -125,11 +127,23 @@ func testPoints() []testPoint {
 		g := ref.SecG()
 		p := ref.SecBaseMul(big.NewInt(3))
 		found := 0
-		for k := int64(4); k <= 8192 && found < 8; k++ {
+		// ... and for keys whose compressed hex form consists only of characters that are also in the
+		// CashAddr alphabet (no '1', no 'b'): such a string is syntactically a CashAddr payload, so the
+		// decoder's dispatch between the address syntaxes is exercised (about 1 key in 5000)
+		ambiguous := 0
+		for k := int64(4); k <= 60000 && (found < 8 || ambiguous < 3); k++ {
 			p = ref.SecAdd(p, g)
-			if p.X.BitLen() <= 248 || p.Y.BitLen() <= 248 {
+			if found < 8 && (p.X.BitLen() <= 248 || p.Y.BitLen() <= 248) {
 				points = append(points, testPoint{big.NewInt(k), p})
 				found++
+				continue
+			}
+			if ambiguous < 3 {
+				hx := fmt.Sprintf("%x", p.Compressed())
+				if !strings.ContainsAny(hx, "1b") {
+					points = append(points, testPoint{big.NewInt(k), p})
+					ambiguous++
+				}
 			}
 		}
 	})
